@@ -472,6 +472,12 @@ class FrameP:
     def is_duplicated(self):
         """DataFrame.is_duplicated(): a boolean Series, true on every row that agrees with another row on ALL columns of the frame"""
         cols = list(self.cols.values())
+        if not cols:
+            # polars: ComputeError("at least one key is required in a group_by operation")
+            I = cur().ghost["interp"]
+            from ..interp import OtherException
+
+            raise PyExc(I.make_exc(OtherException))
 
         def at(i):
             j = _i("j")
